@@ -161,4 +161,33 @@ PROPS = {
                         "TotalAlloc is read in-process around a single-goroutine call with the collector disabled"],
         "trusted_base": ["Go runtime allocation accounting; the reflective deep-size walker"],
     },
+    "C12": {
+        "coq_files": BASE + ["Client/Call.v", "Props/C12.v"],
+        "harness": "sync",
+        "rule": "both clients under testing/synctest (virtual time, scripted in-memory PacketConn): T in {1 ms, 50 ms, 5 s} x n in 0..6 (and -1 with cancellation): silence; rejected same-id datagrams "
+                "at periods T/3, T, 2T; an accepted response at 1/25/50/75/99 % of every try k < n; recorded (virtual instant, destination, bytes) of every WriteTo compared with the "
+                "schedule (exact instants), retransmitted bytes with the request's encoding; results and instants compared with run_call; non-trivial = distinct scenario",
+        "assumptions": ["instants that coincide exactly with a deadline are not generated (select is free to pick either ready case)"],
+        "trusted_base": ["testing/synctest's virtual clock; the scripted PacketConn; modelled, not verified: SendAndRead / retryFn of nclient4 and nclient6"],
+    },
+    "C11": {
+        "coq_files": BASE + ["Client/Call.v", "Client/Routing.v", "Props/C11.v"],
+        "harness": "sync",
+        "rule": "synctest scenarios over T in {10, 50, 200 ms} x n in 1..3: silence, endless rejected same-id stream at period T/3, bursts of 8 datagrams (filling the 5-slot buffer), "
+                "random mixes with acceptable responses, each with an optional context cancellation or Close at a random instant; return instant and error vs run_call and vs the "
+                "budget T(2^n - 1); sequential reuse of a transaction id after timeouts; leaving each bubble proves that no client goroutine remains; non-trivial = distinct scenario",
+        "assumptions": ["instants coinciding with a deadline are not generated"],
+        "trusted_base": ["testing/synctest; modelled, not verified: SendAndRead, send/cancel, Close of both clients"],
+    },
+    "C10": {
+        "coq_files": BASE + ["Client/Routing.v", "Client/Macro.v", "Props/C10.v"],
+        "harness": "sync",
+        "rule": "1..8 concurrent callers on one client (distinct and colliding ids, matchers accepting payload classes from everything to nothing) driven under synctest by external events "
+                "injected one at a time with quiescence in between: start call, datagram (valid, wrong hardware address, wrong opcode, undecodable, duplicated, unknown id), cancel; each "
+                "call's outcome vs the Coq macro model (a refinement of the micro-step machine) and vs an independent Go specification; plus the micro-step schedule of the F8 defect forced "
+                "through the verif hooks on both clients; non-trivial = distinct scenario",
+        "assumptions": ["data-race freedom is outside any interleaving model with atomic steps (thorough tier runs the harness under -race)",
+                        "blocking matchers (a receive loop parked on a full channel) are covered by the micro model only"],
+        "trusted_base": ["testing/synctest; verif hooks in nclient4/nclient6; modelled, not verified: receiveLoop, send, cancel of both clients"],
+    },
 }
